@@ -192,8 +192,93 @@ func detectMode(fn *ssa.Function, seen map[*ssa.Function]bool) Mode {
 	return ModeInt
 }
 
-// verifyFunc generates all obligations for the function with contract c.
+// verifyFunc generates all obligations for the function with contract c. With a
+// `cases` clause the function is verified once under each case assumption (the
+// cases are proved exhaustive under the precondition); obligations of the same
+// name from different cases are parts of one obligation.
 func (e *Engine) verifyFunc(c *Contract) (res *FuncResult) {
+	if len(c.Cases) == 0 {
+		return e.verifyFunc1(c)
+	}
+	res = &FuncResult{Key: c.Key}
+	for k, cs := range c.Cases {
+		cc := *c
+		cc.Cases = nil
+		cc.Requires = append(append([]*Clause(nil), c.Requires...), cs)
+		r := e.verifyFunc1(&cc)
+		res.Mode = r.Mode
+		if r.Err != "" {
+			res.Err = fmt.Sprintf("case %d (%s): %s", k+1, cs.Text, r.Err)
+			return res
+		}
+		for _, o := range r.Obligs {
+			o.Name = fmt.Sprintf("%s/c%d", o.Name, k+1)
+			o.Note = o.Note + " [case " + cs.Text + "]"
+		}
+		res.Obligs = append(res.Obligs, r.Obligs...)
+		res.ExtUsed = append(res.ExtUsed, r.ExtUsed...)
+		res.Notes = append(res.Notes, r.Notes...)
+	}
+	// exhaustiveness: pre ==> case1 || case2 || ...
+	ex := *c
+	ex.Cases = nil
+	ex.Ensures = nil
+	ex.Loops = map[int]*LoopSpec{}
+	if r := e.verifyCasesExhaustive(&ex, c.Cases); r != nil {
+		if r.Err != "" {
+			res.Err = "cases: " + r.Err
+			return res
+		}
+		res.Obligs = append(res.Obligs, r.Obligs...)
+	}
+	return res
+}
+
+func (e *Engine) verifyCasesExhaustive(c *Contract, cases []*Clause) (res *FuncResult) {
+	res = &FuncResult{Key: c.Key}
+	fn := e.findFunc(c)
+	if fn == nil {
+		res.Err = "function not found"
+		return res
+	}
+	mode := detectMode(fn, map[*ssa.Function]bool{})
+	if c.ModeSet {
+		mode = c.Mode
+	}
+	e.ar = &Arith{mode: mode, needUF: map[string][2]interface{}{}}
+	vc := newVC(e, c.Key)
+	vc.ufs = e.ar.needUF
+	e.vc = vc
+	e.curContract = c
+	e.entryState = nil
+	defer func() {
+		if r := recover(); r != nil {
+			res.Err = fmt.Sprint(r)
+		}
+	}()
+	wm0 := vc.declareNamed("wm0", "Int")
+	st := &State{pc: "true", cells: map[*Cell]SV{}, heap: map[string]string{}, wm: wm0, ghost: map[string]string{}}
+	var params []SV
+	for _, p := range fn.Params {
+		sv := e.freshSV(p.Type(), "p_"+p.Name(), "true", st)
+		e.assumeWF(p.Type(), sv)
+		params = append(params, sv)
+	}
+	env := e.contractEnv(c, fn, params, st)
+	env.old = st
+	for _, r := range c.Requires {
+		vc.assume("true", e.evalBool(env, r.Expr))
+	}
+	goal := "false"
+	for _, cs := range cases {
+		goal = or(goal, e.evalBool(env, cs.Expr))
+	}
+	vc.oblige("cases:exhaustive", "true", goal, "the case split covers every input allowed by the precondition")
+	res.Obligs = vc.obligs
+	return res
+}
+
+func (e *Engine) verifyFunc1(c *Contract) (res *FuncResult) {
 	res = &FuncResult{Key: c.Key}
 	fn := e.findFunc(c)
 	if fn == nil {
@@ -258,7 +343,7 @@ func hasLoops(fn *ssa.Function) bool {
 }
 
 func (e *Engine) genFunc(c *Contract, fn *ssa.Function, mode Mode, known map[string]string) (vc *VC, errs string) {
-	e.ar = &Arith{mode: mode, needUF: map[string][2]interface{}{}}
+	e.ar = &Arith{mode: mode, needUF: map[string][2]interface{}{}, wrapSigned: c.WrapsSigned}
 	vc = newVC(e, c.Key)
 	vc.ufs = e.ar.needUF
 	e.vc = vc
